@@ -1200,9 +1200,9 @@ Example ex_run :
   map fst (snd (run ex_ops (m_init []))) =
   [ RInt 0; RInt 0; RVoid; RInt 4; RInt 0; RInt 0; RInt 0; RInt (-84); RSize 2 [226;130];
     RInt 0; RInt (-1); RVoid;
-    RPtr (Some [97;32;98;65;66;67;68;0;165;165;165;165;165;165;165;165]);
+    RPtr (Some [97;32;98;65;66;67;68;0]);
     RPtr (Some [48;49;50;0;52;53;54;55;97;32;98;65;66;67;68;48;49;50;51;52;53;54;55;97;32;98;65;66;67;68;0;130;
-                172;0;165;165;165;165;165;165]) ].
+                0;0;165;165;165;165;165;165]) ].
 Proof. vm_compute. reflexivity. Qed.
 
 Example ex_exit_full : exists blk sc e,
